@@ -80,6 +80,27 @@ Proof.
   destruct (mutate0_spec _ _ _ Em) as (t & t1 & A & B & C & D & E).
   cbn [ret]. intros H; inversion H; subst; clear H. exists t, t1. repeat split; assumption.
 Qed.
+(* the copy-up mkdir of the repaired create_upper_dir: mkdir, then chmod when the lower mode has set-uid / set-gid bits *)
+Lemma ri_mkdir_cu_get pr nm m s r s2 : r_upper pr = true -> r_layer pr = 0%nat ->
+  ri_mkdir_cu pr nm m s = (Ok r, s2) ->
+  exists t1, r = mkReal 0 true (r_path pr ++ [nm]) false false true /\
+    upper s2 = Some t1 /\ lowers s2 = lowers s /\ root s2 = root s /\
+    tget t1 (r_path pr ++ [nm]) = Some (Dir (cu_mode m) [] []).
+Proof.
+  intros Hu Hl. unfold ri_mkdir_cu. unfold bind at 1.
+  destruct (ri_mkdir pr nm m s) as [[ri|e] s1] eqn:Ec; [|discriminate].
+  destruct (ri_mkdir_spec _ _ _ _ _ _ Hu Hl Ec) as (t & t1 & Eu & Hc & -> & Eu1 & Hlow1 & Hroot1).
+  pose proof (h_insert_get _ _ _ _ _ Hc) as Hg1. unfold cu_mode.
+  destruct (has_setid m).
+  - unfold bind at 1. cbn [r_layer r_path].
+    destruct (mutate 0 (h_chmod (r_path pr ++ [nm]) m) s1) as [[[]|e] s3] eqn:Em; [|discriminate].
+    destruct (mutate0_spec _ _ _ Em) as (u & u' & A & B & C & D & E). rewrite Eu1 in A. inversion A; subst u.
+    unfold h_chmod, h_update in B. rewrite Hg1 in B. inversion B; subst u'.
+    cbn [ret]. intros H; inversion H; subst. exists (tupd (r_path pr ++ [nm]) (set_mode m) t1).
+    split; [reflexivity|]. split; [exact C|]. split; [congruence|]. split; [congruence|].
+    rewrite tget_tupd, Hg1. reflexivity.
+  - unfold bind at 1. cbn [ret]. intros H; inversion H; subst. exists t1. auto.
+Qed.
 Lemma get_node_same p s r s0 : get_node p s = (r, s0) -> s0 = s.
 Proof. unfold get_node. destruct (nget p (root s)); intros H; inversion H; reflexivity. Qed.
 (* the parent's upper backing inode, as the copy-up functions obtain it *)
@@ -190,7 +211,7 @@ Theorem create_upper_dir_preserves hu fuel s p n m x ch s' :
   create_upper_dir fuel p s = (Ok tt, s') ->
   forall n', nget p (root s') = Some n' ->
   exists r' rs', n_reals n' = r' :: rs' /\ r_upper r' = true /\
-                 real_tree s' r' = Some (Dir (N.land m 1023) [] []).
+                 real_tree s' r' = Some (Dir (cu_mode m) [] []).
 Proof.
   intros Hinv Hg Hup Hst Hrun n' Hn'. destruct fuel as [|f]; [discriminate|]. cbn [create_upper_dir] in Hrun.
   unfold bind at 1 in Hrun. unfold get_node at 1 in Hrun. rewrite Hg in Hrun.
@@ -209,12 +230,12 @@ Proof.
   unfold bind at 1 in Hrun. destruct (upper_real pn' EINVAL s1) as [[pr|e] s1'] eqn:Eur; [|discriminate].
   destruct (parent_upper hu s1 pp pn' EINVAL pr s1' Hinv1 Eg1 Eur) as (-> & Epu & Hl0).
   unfold bind at 1 in Hrun. cbn [mode_of] in Hrun.
-  destruct (ri_mkdir pr nm m s1) as [[ri|e] s2] eqn:Ec; [|discriminate].
-  destruct (ri_mkdir_spec _ _ _ _ _ _ Epu Hl0 Ec) as (t & t1 & Eu & Hc & -> & Eu2 & Hlow2 & Hroot2).
+  destruct (ri_mkdir_cu pr nm m s1) as [[ri|e] s2] eqn:Ec; [|discriminate].
+  destruct (ri_mkdir_cu_get _ _ _ _ _ _ Epu Hl0 Ec) as (t1 & -> & Eu2 & Hlow2 & Hroot2 & Hc).
   unfold mod_node in Hrun. inversion Hrun; subst s'; clear Hrun.
   cbn [root] in Hn'. rewrite nget_nupd in Hn'.
   destruct (nget p (root s2)) as [n0|]; cbn [option_map] in Hn'; [|discriminate]. inversion Hn'; subst n'; clear Hn'.
   eexists; eexists. split; [reflexivity|]. split; [reflexivity|].
   unfold real_tree; cbn [r_layer r_path get_layer upper]. rewrite Eu2.
-  exact (h_insert_get _ _ _ _ _ Hc).
+  exact Hc.
 Qed.
